@@ -94,7 +94,7 @@ def configs(tier, seed):
         allowed = [a for a, m in ACTIONS.items() if (("r" not in m) or "r" in acc) and (("w" not in m) or "w" in acc)]
         tree = _gen_tree(rnd, 3, allowed, [6 if tier == "quick" else 9])
         style = rnd.choice(["arg", "arg", "annot", "annot_sub"]) if "dict" in tree else "arg"
-        cfg = {"acc": acc, "tree": tree, "style": style}
+        cfg = {"acc": acc, "tree": tree, "style": style, "second": len(out) % 5 == 4}
         if style == "annot_sub":
             # the register class re-declares its annotations in a SUBCLASS of another annotation-defined register
             # whose instance was created first (per-class state must not leak through inheritance)
@@ -153,6 +153,10 @@ def _make_reg(cfg):
 def maker(cfg):
     def make():
         reg = _make_reg(cfg)
+        if cfg.get("second"):
+            # the register has already been elaborated once (e.g. simulated); the checked netlist is its second elaboration
+            from amaranth.hdl import Fragment
+            Fragment.get(reg, None)
         leaves = list(_walk(cfg["tree"], reg.f))
         ports = Ports()
         el = reg.element
